@@ -215,6 +215,11 @@ def pred_c12(tr, story):
                 v.append(("C12/deliver-when-closed", f"delivery on a closed connection in callback {i}", i))
             continue
         table = {ty: list(who) for ty, who in pj["table"].items()}
+        if pj["hc"] == 1:
+            # once the handshake is complete the three peer requests are answered whatever the registry looks like
+            for ty_req, who in ((5, "disc"), (7, "ping"), (36, "time")):
+                if who not in table.setdefault(ty_req, []):
+                    table[ty_req].append(who)
         exp_d, exp_w = [], []
         closed = False
         raised = any(o.startswith("X") for o in obs)
